@@ -805,5 +805,6 @@ func extractC05() *lean {
 	}
 	_ = os.Stderr
 	extractC05Forms(l)
+	extractC05Vci(l)
 	return l
 }
